@@ -2,11 +2,12 @@
 //!
 //! Registers hold real `KmerMinHash` / `KmerMinHashBTree` values; see lean/Driver/C04.lean for the
 //! model/spec side of every op.
+use sourmash::cmd::ComputeParameters;
 use sourmash::encodings::HashFunctions;
 use sourmash::prelude::*;
 use sourmash::selection::Selection;
 use sourmash::index::calculate_gather_stats;
-use sourmash::signature::Signature;
+use sourmash::signature::{Signature, SigsTrait};
 use sourmash::storage::SigStore;
 use sourmash::sketch::minhash::{max_hash_for_scaled, KmerMinHash, KmerMinHashBTree};
 use sourmash::sketch::Sketch;
@@ -28,13 +29,72 @@ fn mol(s: &str) -> HashFunctions {
     }
 }
 
+fn mol_name(h: &HashFunctions) -> &'static str {
+    match h {
+        HashFunctions::Murmur64Dna => "dna",
+        HashFunctions::Murmur64Protein => "protein",
+        HashFunctions::Murmur64Dayhoff => "dayhoff",
+        HashFunctions::Murmur64Hp => "hp",
+        _ => "custom",
+    }
+}
+
+/// every parameter a sketch carries, then its content
+fn obsp(r: &Reg) -> String {
+    let (k, h, seed) = match r {
+        Reg::V(x) => (x.ksize(), x.hash_function(), x.seed()),
+        Reg::T(x) => (x.ksize(), x.hash_function(), x.seed()),
+    };
+    format!("k={} mol={} seed={} {}", k, mol_name(&h), seed, obs(r))
+}
+
+fn reg_of(s: &Sketch) -> Option<Reg> {
+    match s {
+        Sketch::MinHash(x) => Some(Reg::V(x.clone())),
+        Sketch::LargeMinHash(x) => Some(Reg::T(x.clone())),
+        _ => None,
+    }
+}
+
+fn show_sketches(sk: &[Sketch], full: bool) -> String {
+    let mut out = format!("n={}", sk.len());
+    for s in sk {
+        let r = match reg_of(s) {
+            Some(r) => r,
+            None => return "bad-sketch".into(),
+        };
+        out.push_str(" | ");
+        out.push_str(&if full { obsp(&r) } else { obs(&r) });
+    }
+    out
+}
+
+/// the retain test of `Signature::select` for a scaled request followed by an EXPLICIT
+/// `downsample_scaled` of every retained sketch (the route the property compares `select` with)
+fn select_explicit(sk: &[Sketch], s: u64) -> Result<Vec<Sketch>, sourmash::Error> {
+    let mut out = vec![];
+    for x in sk {
+        match x {
+            Sketch::MinHash(mh) if mh.scaled() != 0 && mh.scaled() <= s => {
+                out.push(Sketch::MinHash(mh.clone().downsample_scaled(s)?))
+            }
+            Sketch::LargeMinHash(mh) if mh.scaled() != 0 && mh.scaled() <= s => {
+                out.push(Sketch::LargeMinHash(mh.clone().downsample_scaled(s)?))
+            }
+            _ => {}
+        }
+    }
+    Ok(out)
+}
+
 fn obs(r: &Reg) -> String {
-    let (mh, m, a) = match r {
-        Reg::V(x) => (x.max_hash(), x.mins(), x.abunds()),
-        Reg::T(x) => (x.max_hash(), x.mins(), x.abunds()),
+    let (num, mh, m, a) = match r {
+        Reg::V(x) => (x.num(), x.max_hash(), x.mins(), x.abunds()),
+        Reg::T(x) => (x.num(), x.max_hash(), x.mins(), x.abunds()),
     };
     format!(
-        "mh={} mins={} abunds={}",
+        "num={} mh={} mins={} abunds={}",
+        num,
         mh,
         show_nats(m),
         match a {
@@ -61,6 +121,8 @@ fn parse_pairs(s: &str) -> Vec<(u64, u64)> {
 struct St {
     tree: bool,
     regs: BTreeMap<u64, Reg>,
+    /// the signature built by `fpnew` (Signature::from_params) and fed by `fpadd`
+    sig: Option<Signature>,
 }
 
 fn err<E: std::fmt::Debug>(e: E) -> String {
@@ -99,7 +161,7 @@ fn step(st: &mut St, ws: &[&str]) -> String {
     let n = |i: usize| -> u64 { ws[i].parse().unwrap() };
     // operand registers must exist (a refused downsample leaves its target register unset)
     let srcs: &[usize] = match ws[0] {
-        "obs" | "scaled" | "add" | "set" => &[1],
+        "obs" | "scaled" | "add" | "set" | "rm" | "clear" | "md5" => &[1],
         "copy" | "ds" | "dsm" => &[2],
         "merge" | "isect" | "cc" | "sim" | "ccx" | "simx" | "iszx" | "gstats" | "gstatsx" => &[1, 2],
         _ => &[],
@@ -107,13 +169,14 @@ fn step(st: &mut St, ws: &[&str]) -> String {
     if srcs.iter().any(|&i| !st.regs.contains_key(&n(i))) {
         return "bad-reg".into();
     }
-    if ws[0] == "sel" && ws[2..].iter().any(|w| !st.regs.contains_key(&w.parse().unwrap())) {
+    if (ws[0] == "sel" || ws[0] == "selx") && ws[2..].iter().any(|w| !st.regs.contains_key(&w.parse().unwrap())) {
         return "bad-reg".into();
     }
     match ws[0] {
         "case" => {
             st.tree = ws.get(2) == Some(&"tree");
             st.regs.clear();
+            st.sig = None;
             "ok".into()
         }
         "new" => {
@@ -298,8 +361,9 @@ fn step(st: &mut St, ws: &[&str]) -> String {
                 Err(e) => err(e),
             }
         }
-        // sel s R... : a signature holding the listed sketches, selected at scaled s
-        "sel" => {
+        // sel s R... : a signature holding the listed sketches, selected at scaled s;
+        // selx: the same sketches filtered by the retain test and downsampled explicitly
+        "sel" | "selx" => {
             let mut sig = Signature::default();
             for w in &ws[2..] {
                 let r: u64 = w.parse().unwrap();
@@ -308,26 +372,126 @@ fn step(st: &mut St, ws: &[&str]) -> String {
                     Reg::T(x) => Sketch::LargeMinHash(x),
                 });
             }
+            if ws[0] == "selx" {
+                return match select_explicit(sig.sketches().as_slice(), n(1)) {
+                    Ok(v) => show_sketches(&v, false),
+                    Err(e) => err(e),
+                };
+            }
             let mut sel = Selection::default();
             sel.set_scaled(n(1) as u32);
             match sig.select(&sel) {
-                Ok(sig) => {
-                    let sk = sig.sketches();
-                    let mut out = format!("n={}", sk.len());
-                    for s in sk {
-                        let r = match s {
-                            Sketch::MinHash(x) => Reg::V(x),
-                            Sketch::LargeMinHash(x) => Reg::T(x),
-                            _ => return "bad-sketch".into(),
-                        };
-                        out.push_str(" | ");
-                        out.push_str(&obs(&r));
-                    }
-                    out
-                }
+                Ok(sig) => show_sketches(&sig.sketches(), false),
                 Err(e) => err(e),
             }
         }
+        // rm R h,h,.. : remove_many
+        "rm" => {
+            let hs = parse_nats(ws[2]);
+            let r = st.regs.get_mut(&n(1)).unwrap();
+            match r {
+                Reg::V(x) => x.remove_many(hs).unwrap(),
+                Reg::T(x) => x.remove_many(hs).unwrap(),
+            }
+            obs(r)
+        }
+        "clear" => {
+            let r = st.regs.get_mut(&n(1)).unwrap();
+            match r {
+                Reg::V(x) => x.clear(),
+                Reg::T(x) => x.clear(),
+            }
+            obs(r)
+        }
+        // md5 R : md5sum() is computed (and from now on cached in R); it must be the md5sum of a
+        // fresh sketch holding the same hashes
+        "md5" => {
+            let r = &st.regs[&n(1)];
+            let (got, want) = match r {
+                Reg::V(x) => {
+                    let mut f = KmerMinHash::new(1, x.ksize() as u32, x.hash_function(), x.seed(), false, 0);
+                    f.add_many(&x.mins()).unwrap();
+                    (x.md5sum(), f.md5sum())
+                }
+                Reg::T(x) => {
+                    let mut f = KmerMinHashBTree::new(1, x.ksize() as u32, x.hash_function(), x.seed(), false, 0);
+                    f.add_many(&x.mins()).unwrap();
+                    (x.md5sum(), f.md5sum())
+                }
+            };
+            if got == want {
+                "md5ok".into()
+            } else {
+                format!("md5stale {} {}", got, want)
+            }
+        }
+        // fpnew <mols> <ksizes> <scaled> <num|d> <track> R... : Signature::from_params of
+        // ComputeParameters (num_hashes left at its default when `d`); its sketches are also copied
+        // into the registers R... (template order) so that every other op can be driven on them
+        "fpnew" => {
+            let mut p = ComputeParameters::builder().build();
+            let mols: Vec<&str> = ws[1].split(',').collect();
+            p.set_dna(mols.contains(&"dna"));
+            p.set_protein(mols.contains(&"protein"));
+            p.set_dayhoff(mols.contains(&"dayhoff"));
+            p.set_hp(mols.contains(&"hp"));
+            p.set_ksizes(parse_nats(ws[2]).into_iter().map(|k| k as u32).collect());
+            p.set_scaled(n(3));
+            if ws[4] != "d" {
+                p.set_num_hashes(n(4) as u32);
+            }
+            p.set_track_abundance(ws[5] == "1");
+            let sig = Signature::from_params(&p);
+            let sk = sig.sketches();
+            if sk.len() != ws.len() - 6 {
+                return format!("n={}", sk.len());
+            }
+            for (s, w) in sk.iter().zip(&ws[6..]) {
+                match reg_of(s) {
+                    Some(r) => st.regs.insert(w.parse().unwrap(), r),
+                    None => return "bad-sketch".into(),
+                };
+            }
+            let out = show_sketches(&sk, true);
+            st.sig = Some(sig);
+            out
+        }
+        // fpadd SEQ : Signature::add_sequence(SEQ, force = false)
+        "fpadd" => match st.sig.as_mut() {
+            Some(sig) => match sig.add_sequence(ws[1].as_bytes(), false) {
+                Ok(()) => show_sketches(&sig.sketches(), false),
+                Err(e) => err(e),
+            },
+            None => "bad-reg".into(),
+        },
+        // fpsel s : the from_params signature selected at scaled s; fpselx s: retain test + explicit
+        // downsample_scaled of each of its sketches
+        "fpsel" | "fpselx" => match st.sig.as_ref() {
+            Some(sig) => {
+                if ws[0] == "fpselx" {
+                    return match select_explicit(sig.sketches().as_slice(), n(1)) {
+                        Ok(v) => show_sketches(&v, true),
+                        Err(e) => err(e),
+                    };
+                }
+                let mut sel = Selection::default();
+                sel.set_scaled(n(1) as u32);
+                match sig.clone().select(&sel) {
+                    Ok(sig) => show_sketches(&sig.sketches(), true),
+                    Err(e) => err(e),
+                }
+            }
+            None => "bad-reg".into(),
+        },
+        // fpget R i : R := sketch i of the from_params signature (as fed by fpadd)
+        "fpget" => match st.sig.as_ref().and_then(|s| s.sketches().get(n(2) as usize).and_then(reg_of)) {
+            Some(r) => {
+                let o = obs(&r);
+                st.regs.insert(n(1), r);
+                o
+            }
+            None => "bad-reg".into(),
+        },
         _ => "bad-op".into(),
     }
 }
@@ -387,6 +551,171 @@ fn new_line(reg: u64, scaled: u64, num: u64, track: bool) -> String {
     format!("new {} {} {} 21 dna 42 {}", reg, scaled, num, track as u8)
 }
 
+/// the `num` a sketch gets next to its `scaled`: none (the sketches the theorems are about), larger
+/// than anything it will hold (nothing is ever evicted), or small (the bottom-`num` bound cuts)
+fn pick_num(r: &mut Rng, usize_: usize) -> u64 {
+    match r.below(16) {
+        0..=9 => 0,
+        10..=12 => 1000,
+        13 => usize_ as u64 + 1,
+        _ => r.range(1, (usize_ as u64).max(2)),
+    }
+}
+
+fn keys_of(v: &[(u64, u64)]) -> Vec<u64> {
+    let mut k: Vec<u64> = v.iter().map(|p| p.0).collect();
+    k.sort();
+    k.dedup();
+    k
+}
+
+/// fill register `reg` (already created with `new_line(reg, s, num, track)`) with the data `it`,
+/// optionally after / through a life: junk added and removed, clear, md5 cached, part of the data
+/// merged in from another sketch, part of it removed and added again
+fn fill(o: &mut Out, r: &mut Rng, reg: u64, tmp: u64, s: u64, num: u64, track: bool, it: &[(u64, u64)], u: &[u64]) {
+    match r.below(8) {
+        0 | 1 => o.op(&format!("add {} {}", reg, show_items(it))),
+        2 => {
+            let junk = items(r, u, 1, 2);
+            let mut ks = keys_of(&junk);
+            ks.push(r.bits(64)); // a hash that is (almost surely) not there
+            o.op(&format!("add {} {}", reg, show_items(&junk)));
+            o.op(&format!("md5 {}", reg));
+            o.op(&format!("rm {} {}", reg, show_nats(ks)));
+            o.op(&format!("add {} {}", reg, show_items(it)));
+        }
+        3 => {
+            let junk = items(r, u, 1, 2);
+            o.op(&format!("add {} {}", reg, show_items(&junk)));
+            if r.chance(1, 2) {
+                o.op(&format!("md5 {}", reg));
+            }
+            o.op(&format!("clear {}", reg));
+            o.op(&format!("add {} {}", reg, show_items(it)));
+        }
+        4 => {
+            let cut = r.below(it.len() as u64 + 1) as usize;
+            o.op(&format!("add {} {}", reg, show_items(&it[..cut])));
+            o.op(&new_line(tmp, s, num, track));
+            o.op(&format!("add {} {}", tmp, show_items(&it[cut..])));
+            o.op(&format!("md5 {}", reg));
+            o.op(&format!("merge {} {}", reg, tmp));
+        }
+        5 => {
+            o.op(&format!("add {} {}", reg, show_items(it)));
+            o.op(&format!("md5 {}", reg));
+            let ks: Vec<u64> = keys_of(it).into_iter().filter(|_| r.chance(1, 3)).collect();
+            o.op(&format!("rm {} {}", reg, show_nats(ks.clone())));
+            let again: Vec<(u64, u64)> = it.iter().filter(|p| ks.contains(&p.0)).cloned().collect();
+            o.op(&format!("add {} {}", reg, show_items(&again)));
+        }
+        _ => {
+            o.op(&format!("add {} {}", reg, show_items(it)));
+            o.op(&format!("md5 {}", reg));
+        }
+    }
+}
+
+fn dna(r: &mut Rng, len: u64) -> String {
+    (0..len).map(|_| b"ACGT"[r.below(4) as usize] as char).collect()
+}
+
+/// every k-mer hash of `seq` in the order `add_sequence` produces them (hash 0 is skipped there)
+fn seq_hashes(seq: &str, ksize: u64, m: &str) -> Vec<u64> {
+    sourmash::signature::SeqToHashes::new(seq.as_bytes(), ksize as usize, false, false, mol(m), 42)
+        .map(|h| h.unwrap())
+        .filter(|&h| h != 0)
+        .collect()
+}
+
+/// signatures built by the real glue: ComputeParameters -> Signature::from_params -> add_sequence,
+/// then select at coarser (and equal, and finer) scaled values
+fn gen_fp(o: &mut Out, r: &mut Rng) {
+    const MOLS: [&[&str]; 7] = [
+        &["dna"], &["dna"], &["protein"], &["dayhoff"], &["hp"], &["protein", "dna"],
+        &["protein", "dayhoff", "hp", "dna"],
+    ];
+    let mols = *r.pick(&MOLS);
+    let mut ks: Vec<u64> = vec![];
+    let nk = if mols.len() > 2 { 1 } else { r.range(1, 3) };
+    while (ks.len() as u64) < nk {
+        let k = *r.pick(&[15u64, 21, 27, 30, 33]);
+        if !ks.contains(&k) {
+            ks.push(k);
+        }
+    }
+    let s = *r.pick(&[1u64, 1, 2, 2, 3, 4, 7, 8]);
+    let num = match r.below(8) {
+        0..=2 => "d".to_string(),
+        3 | 4 => "0".to_string(),
+        5 => "5000".to_string(),
+        _ => r.range(3, 60).to_string(),
+    };
+    let track = r.chance(1, 2);
+    // template order of build_template: per ksize protein, dayhoff, hp, dna
+    let mut tmpl: Vec<(u64, &str)> = vec![];
+    for &k in &ks {
+        for m in ["protein", "dayhoff", "hp", "dna"] {
+            if mols.contains(&m) {
+                tmpl.push((k, m));
+            }
+        }
+    }
+    let regs: Vec<String> = (0..tmpl.len()).map(|i| i.to_string()).collect();
+    o.case(&format!("tree fp {} {}", s, num));
+    o.op(&format!(
+        "fpnew {} {} {} {} {} {}",
+        mols.join(","),
+        show_nats(ks.clone()),
+        s,
+        num,
+        track as u8,
+        regs.join(" ")
+    ));
+    let l0 = r.range(40, 240);
+    let seq = dna(r, l0);
+    let mut seqs = vec![seq.clone()];
+    if r.chance(1, 2) {
+        // a second piece: a prefix of the first (abundances > 1) or fresh data
+        if r.chance(1, 2) {
+            let cut = r.range(34, seq.len() as u64) as usize;
+            seqs.push(seq[..cut].to_string());
+        } else {
+            let l = r.range(40, 160);
+            seqs.push(dna(r, l));
+        }
+    }
+    for q in &seqs {
+        for (i, (k, m)) in tmpl.iter().enumerate() {
+            o.op(&format!("add {} {}", i, show_nats(seq_hashes(q, *k, m))));
+        }
+        o.op(&format!("fpadd {}", q));
+    }
+    let mut targets = vec![s, s + 1, 2 * s, 2 * s + 1, 5 * s, 16, 64, 1000];
+    targets.retain(|&t| t >= s);
+    for _ in 0..3 {
+        let t = *r.pick(&targets);
+        o.op(&format!("fpsel {}", t));
+        o.op(&format!("fpselx {}", t));
+        o.op(&format!("sel {} {}", t, regs.join(" ")));
+        // one delivered sketch through the plain entry points
+        let i = r.below(tmpl.len() as u64);
+        o.op(&format!("fpget 30 {}", i));
+        o.op(&format!("ds 31 30 {}", t));
+        o.op("md5 31");
+        o.op("cc 30 31 1");
+        o.op("ccx 31 30");
+        o.op("sim 31 30 1 1");
+        o.op("obs 30");
+    }
+    if s > 1 {
+        // a finer request: nothing is delivered
+        o.op(&format!("fpsel {}", s - 1));
+        o.op(&format!("fpselx {}", s - 1));
+    }
+    o.op(&format!("fpsel {}", s));
+}
+
 fn gen(a: &Args) {
     let mut r = Rng::new(a.seed);
     let mut o = Out::new();
@@ -399,6 +728,9 @@ fn gen(a: &Args) {
     };
     let mut ci = 0u64;
     for round in 0..rounds {
+        for _ in 0..3 {
+            gen_fp(&mut o, &mut r);
+        }
         // every ordered pair (s, s') of the scaled table, both container types
         for &s in &SCALEDS {
             for &s2 in &SCALEDS {
@@ -407,24 +739,29 @@ fn gen(a: &Args) {
                 let s3 = *r.pick(&SCALEDS);
                 let u = universe(&mut r, &[s, s2, s3]);
                 let (ta, tb) = (r.chance(3, 4), r.chance(3, 4));
-                o.case(&format!("{} pair {} {}", ty, s, s2));
-                o.op(&new_line(0, s, 0, ta));
-                o.op(&new_line(1, s2, 0, tb));
+                // num next to scaled (check_compatible does not look at num: any mix is comparable)
+                let na = pick_num(&mut r, u.len());
+                let nb = pick_num(&mut r, u.len());
+                o.case(&format!("{} pair {} {} num {} {}", ty, s, s2, na, nb));
+                o.op(&new_line(0, s, na, ta));
+                o.op(&new_line(1, s2, nb, tb));
                 let ia = items(&mut r, &u, 3, 4);
                 let ib = items(&mut r, &u, 3, 4);
-                o.op(&format!("add 0 {}", show_items(&ia)));
-                o.op(&format!("add 1 {}", show_items(&ib)));
+                fill(&mut o, &mut r, 0, 20, s, na, ta, &ia, &u);
+                fill(&mut o, &mut r, 1, 21, s2, nb, tb, &ib, &u);
                 o.op("scaled 0");
+                o.op("obs 0");
                 // downsample of a to s2 (refused when s2 < s), idempotence, composition through s3
                 o.op(&format!("ds 2 0 {}", s2));
                 o.op("obs 2");
+                o.op("md5 2");
                 o.op(&format!("ds 3 2 {}", s2));
                 let (lo, hi) = (s2.min(s3), s2.max(s3));
                 o.op(&format!("ds 4 0 {}", lo));
                 o.op(&format!("ds 5 4 {}", hi));
                 o.op(&format!("ds 6 0 {}", hi));
                 // sketching the same data directly at s2
-                o.op(&new_line(7, s2, 0, ta));
+                o.op(&new_line(7, s2, na, ta));
                 o.op(&format!("add 7 {}", show_items(&ia)));
                 // downsample_max_hash with the ceiling of s2
                 o.op(&format!("dsm 8 0 {}", max_hash_for_scaled(s2)));
@@ -443,12 +780,13 @@ fn gen(a: &Args) {
                         o.op(op);
                     }
                 }
-                // operands are never modified
+                // operands are never modified (nor is a cached md5 invalid afterwards)
                 o.op("obs 0");
                 o.op("obs 1");
+                o.op("md5 0");
                 // downsample commutes with merge and intersection (at the larger scaled)
                 let m = s.max(s2);
-                o.op(&new_line(9, s, 0, tb));
+                o.op(&new_line(9, s, nb, tb));
                 o.op(&format!("add 9 {}", show_items(&ib)));
                 o.op("copy 10 0");
                 o.op("merge 10 9");
@@ -456,13 +794,17 @@ fn gen(a: &Args) {
                 o.op(&format!("ds 12 0 {}", m));
                 o.op(&format!("ds 13 9 {}", m));
                 o.op("merge 12 13"); // ds a ∪ ds b
+                o.op("md5 12");
                 o.op("isect 12 13");
                 o.op("isect 0 9");
-                // Signature::select at s2 (and with a second sketch at another scaled, and a num sketch)
+                // Signature::select at s2 (and with a second sketch at another scaled, and a num
+                // sketch), next to the explicit route
                 o.op(&format!("sel {} 0", s2));
+                o.op(&format!("selx {} 0", s2));
                 o.op(&new_line(14, 0, 5, ta));
                 o.op(&format!("add 14 {}", show_items(&ia)));
                 o.op(&format!("sel {} 0 1 14", s2.max(s3)));
+                o.op(&format!("selx {} 0 1 14", s2.max(s3)));
                 o.op(&format!("sel {} 14", s2));
                 // num sketches pass through downsampling unchanged
                 o.op(&format!("ds 15 14 {}", s2));
@@ -483,6 +825,7 @@ fn main() {
             || St {
                 tree: false,
                 regs: BTreeMap::new(),
+                sig: None,
             },
             step,
         ),
